@@ -715,6 +715,33 @@ def run : List Op → St → St
     | .ok s' => run ops s'
     | .error _ => run ops s
 
+/-! ## the state an operation leaves behind when it raises -/
+
+/-- the tree `filter_leaf_nodes` has reached when its loop stops, normally or by raising (the loop of `filterLeaves`,
+returning the tree it holds instead of the verdict): when the seed turns out to be a leaf the filter rejects, the
+passes made before have already removed nodes — the one operation of the alphabet that raises after its first write -/
+def filterLast (keepIds : List Nat) (recursive : Bool) : Nat → T → T
+  | 0, t => t
+  | f + 1, t =>
+    if t.cs.isEmpty then t else
+    let t' := dropLeaves (fun c => keepIds.contains c.id) t
+    if t'.size == t.size || !recursive then t' else filterLast keepIds recursive f t'
+
+/-- the state `op` leaves behind WHEN IT RAISES its documented error: every operation checks its arguments before its first
+write (`remove_child`: "not listed as a child"; `Edge.collapse`: terminal edge; `prune_subtree`: node without parent), so the
+state is as it was — except `filter_leaf_nodes`, which raises `SeedNodeDeletionException` only after the earlier passes of
+its loop have emptied the tree down to the seed -/
+def errState (s : St) : Op → St
+  | .filterLeaves keep recursive _ _ => { s with t := filterLast keep recursive (s.t.size + 1) s.t }
+  | _ => s
+
+/-- a history with the states raising operations really leave (`run` with `errState` in place of "as it was") -/
+def runE : List Op → St → St
+  | [], s => s
+  | op :: ops, s => match step s op with
+    | .ok s' => runE ops s'
+    | .error _ => runE ops (errState s op)
+
 /-- multiset of leaf taxa (sorted list with repeats) -/
 def leafTaxa (t : T) : List Nat := sortNat (t.leaves.filterMap T.taxon)
 
